@@ -22,3 +22,33 @@ package flaggedproducer
 //@   ensures  [ok] result == nil ==> gMarked[s] && s.Dirty != 0
 //@   ensures  [write] old(s.Dirty) == 0 ==> gWrOpN == old(gWrOpN) + 1 && gWrOpKind[gWrOpN - 1] == 1 && gWrOpRecv[gWrOpN - 1] == s.Store && gWrOpKey[gWrOpN - 1] == s.flushIDKey && isDirtyMark(gWrOpVal[gWrOpN - 1]) && result == gWrOpErr[gWrOpN - 1]
 //@   ensures  [nowrite] old(s.Dirty) != 0 ==> gWrOpN == old(gWrOpN) && result == nil
+//@
+//@ // Put / Delete: the data write is issued to the wrapped store only after the dirty mark is on disk; if the mark
+//@ // cannot be written nothing else is written and the error is returned
+//@ func (*flaggedStore).Put
+//@   requires fsinv(s)
+//@   modifies s.Dirty, gMarked[s], gKeyValueWriterPutN, gKeyValueWriterPutRecv, gKeyValueWriterPutA0, gKeyValueWriterPutA1, gKeyValueWriterPutR0, gWrOpN, gWrOpKind[*], gWrOpRecv[*], gWrOpKey[*], gWrOpVal[*], gWrOpErr[*]
+//@   ensures  [inv] fsinv(s)
+//@   ensures  [markfail] old(s.Dirty) == 0 && gWrOpErr[old(gWrOpN)] != nil ==> gWrOpN == old(gWrOpN) + 1 && result == gWrOpErr[old(gWrOpN)]
+//@   ensures  [marked] old(s.Dirty) == 0 && gWrOpErr[old(gWrOpN)] == nil ==> gWrOpN == old(gWrOpN) + 2 && gWrOpKey[old(gWrOpN)] == s.flushIDKey && isDirtyMark(gWrOpVal[old(gWrOpN)]) && gWrOpKind[old(gWrOpN)] == 1 && gWrOpRecv[old(gWrOpN)] == s.Store
+//@   ensures  [dirty] old(s.Dirty) != 0 ==> gWrOpN == old(gWrOpN) + 1
+//@   ensures  [data] !(old(s.Dirty) == 0 && gWrOpErr[old(gWrOpN)] != nil) ==> gMarked[s] && gWrOpKind[gWrOpN - 1] == 1 && gWrOpRecv[gWrOpN - 1] == s.Store && gWrOpKey[gWrOpN - 1] == key && gWrOpVal[gWrOpN - 1] == value && result == gWrOpErr[gWrOpN - 1]
+//@ func (*flaggedStore).Delete
+//@   requires fsinv(s)
+//@   modifies s.Dirty, gMarked[s], gKeyValueWriterPutN, gKeyValueWriterPutRecv, gKeyValueWriterPutA0, gKeyValueWriterPutA1, gKeyValueWriterPutR0, gKeyValueWriterDeleteN, gKeyValueWriterDeleteRecv, gKeyValueWriterDeleteA0, gKeyValueWriterDeleteR0, gWrOpN, gWrOpKind[*], gWrOpRecv[*], gWrOpKey[*], gWrOpVal[*], gWrOpErr[*]
+//@   ensures  [inv] fsinv(s)
+//@   ensures  [markfail] old(s.Dirty) == 0 && gWrOpErr[old(gWrOpN)] != nil ==> gWrOpN == old(gWrOpN) + 1 && result == gWrOpErr[old(gWrOpN)]
+//@   ensures  [marked] old(s.Dirty) == 0 && gWrOpErr[old(gWrOpN)] == nil ==> gWrOpN == old(gWrOpN) + 2 && gWrOpKey[old(gWrOpN)] == s.flushIDKey && isDirtyMark(gWrOpVal[old(gWrOpN)]) && gWrOpKind[old(gWrOpN)] == 1 && gWrOpRecv[old(gWrOpN)] == s.Store
+//@   ensures  [dirty] old(s.Dirty) != 0 ==> gWrOpN == old(gWrOpN) + 1
+//@   ensures  [data] !(old(s.Dirty) == 0 && gWrOpErr[old(gWrOpN)] != nil) ==> gMarked[s] && gWrOpKind[gWrOpN - 1] == 2 && gWrOpRecv[gWrOpN - 1] == s.Store && gWrOpKey[gWrOpN - 1] == key && result == gWrOpErr[gWrOpN - 1]
+//@ // a batch of the flagged store is written only after the dirty mark is on disk
+//@ func (*flaggedBatch).Write
+//@   requires s != nil && s.Batch != nil && fsinv(s.db)
+//@   modifies s.db.Dirty, gMarked[s.db], gKeyValueWriterPutN, gKeyValueWriterPutRecv, gKeyValueWriterPutA0, gKeyValueWriterPutA1, gKeyValueWriterPutR0, gWrOpN, gWrOpKind[*], gWrOpRecv[*], gWrOpKey[*], gWrOpVal[*], gWrOpErr[*], gBatchWriteN, gBatchWriteRecv, gBatchWriteR0
+//@   ensures  [inv] fsinv(s.db)
+//@   ensures  [markfail] old(s.db.Dirty) == 0 && gWrOpErr[old(gWrOpN)] != nil ==> gBatchWriteN == old(gBatchWriteN) && result == gWrOpErr[old(gWrOpN)]
+//@   ensures  [written] !(old(s.db.Dirty) == 0 && gWrOpErr[old(gWrOpN)] != nil) ==> gMarked[s.db] && gBatchWriteN == old(gBatchWriteN) + 1 && gBatchWriteRecv == s.Batch && result == gBatchWriteR0
+//@ func (*flaggedStore).NewBatch
+//@   requires s != nil && s.Store != nil
+//@   modifies gBatcherNewBatchN, gBatcherNewBatchRecv, gBatcherNewBatchR0
+//@   ensures  typeis(result, "*flaggedBatch") && unbox(result, "*flaggedBatch").db == s && unbox(result, "*flaggedBatch").Batch == gBatcherNewBatchR0 && gBatcherNewBatchRecv == s.Store && gBatcherNewBatchN == old(gBatcherNewBatchN) + 1
